@@ -9,7 +9,7 @@
    finc k t / relc k t = number of __gc / ReleaseResources calls on k since k
    was last marked; wantsF / wantsR = the flags of that last marking. *)
 From Coq Require Import NArith List Sorted Permutation.
-From GV Require Import GC.ClonePool GC.Lemmas GC.Proofs GC.Theorems GC.Order.
+From GV Require Import GC.ClonePool GC.Lemmas GC.Proofs GC.Theorems GC.Order GC.Stack GC.StackProofs.
 Import ListNotations.
 Open Scope N_scope.
 
@@ -24,23 +24,14 @@ Theorem C18_release_at_most_once :
 Proof. exact release_at_most_once. Qed.
 Print Assumptions C18_release_at_most_once.
 
-(* exactly once by close — for every value whose pending finaliser call was
-   not discarded by ExtractAllMarkedFinalize (the defect class, see _refuted) *)
-Theorem C18_finalize_exactly_once_by_close_partial :
+(* exactly once by close (the code after the repair of ExtractAllMarkedFinalize: values whose Go
+   finaliser already fired are returned too) — unconditional *)
+Theorem C18_finalize_exactly_once_by_close :
   forall es w w' k,
   wrun world0 es = Some w -> wstep w ECloseF = Some w' ->
-  wantsF k (tr w') = true ->
-  mem k (keys (pendF (pl w))) = false -> mem k (lost w) = false ->
-  finc k (tr w') = 1%nat.
-Proof. exact finalize_exactly_once_by_close_partial. Qed.
-Print Assumptions C18_finalize_exactly_once_by_close_partial.
-
-(* the code as it stands: Mark a; Mark b; Drop a; GoGC a; close — a is never finalised *)
-Theorem C18_finalize_exactly_once_by_close_refuted :
-  exists es w k, wrun world0 es = Some w /\ closed (pl w) = true /\
-                 wantsF k (tr w) = true /\ finc k (tr w) = 0%nat.
-Proof. exact finalize_exactly_once_by_close_refuted. Qed.
-Print Assumptions C18_finalize_exactly_once_by_close_refuted.
+  wantsF k (tr w') = true -> finc k (tr w') = 1%nat.
+Proof. exact finalize_exactly_once_by_close. Qed.
+Print Assumptions C18_finalize_exactly_once_by_close.
 
 Theorem C18_release_exactly_once_after_finalize :
   forall es w w' k,
@@ -53,7 +44,7 @@ Print Assumptions C18_release_exactly_once_after_finalize.
 Theorem C18_close_order_reverse_mark :
   forall os,
   let p := fold_left (fun q o => fst (step q o)) os pool0 in
-  let sel := filter notFin (regList p) in
+  let sel := pendF p ++ filter notFin (regList p) in
   StronglySorted desc (sort_desc sel) /\ Permutation (sort_desc sel) sel /\
   (forall k fl r, reg p = Some r -> fl <> 0 ->
      let p' := fst (mark p k fl) in
@@ -68,7 +59,7 @@ Print Assumptions C18_close_order_reverse_mark.
 Theorem C18_extraction_order_unique :
   forall os,
   let p := fold_left (fun q o => fst (step q o)) os pool0 in
-  forall sel, In sel [filter notFin (regList p); pendF p; pendR p ++ filter notRel (regList p); pendR p] ->
+  forall sel, In sel [pendF p ++ filter notFin (regList p); pendF p; pendR p ++ filter notRel (regList p); pendR p] ->
   StronglySorted sdesc (sort_desc sel) /\
   forall l, StronglySorted sdesc l -> Permutation l sel -> l = sort_desc sel.
 Proof. exact extraction_order_unique. Qed.
@@ -93,3 +84,13 @@ Theorem C18_killed_context_releases_exactly_once :
   occ k (snd (exit_killed (pl w))) = 1%nat.
 Proof. exact killed_context_releases_exactly_once. Qed.
 Print Assumptions C18_killed_context_releases_exactly_once.
+
+(* the stack of per-context pools (GC/Stack.v: PushContext/PopContext switching pools, ClonePool.Mark
+   handing a value to the enclosing pool that already tracks it): for every history of pushes, normal and
+   killed exits, markings, collector callbacks on any pool, runPendingFinalizers and Close, every __gc
+   call and every release happens while the context whose pool registered the value — since that
+   context was entered — is the current one (so it is metered by, and charged to, that context) *)
+Theorem C18_finalizer_runs_in_owning_context :
+  forall os, ownerOK (strace (srun s0 os)) = true.
+Proof. exact finalizer_runs_in_owning_context. Qed.
+Print Assumptions C18_finalizer_runs_in_owning_context.
